@@ -87,9 +87,12 @@ class Ctx:
                 with open(p, mode) as f:
                     f.write(content)
         self.violations.append((key, d))
-        print(f"VIOLATION property={self.prop} replay={d}", flush=True)
-        brief = json.dumps(detail, default=str)
-        print(f"  detail: {brief[:600]}", flush=True)
+        if len(self.violations) <= 25:
+            print(f"VIOLATION property={self.prop} replay={d}", flush=True)
+            brief = json.dumps({"key": key, "detail": detail}, default=str)
+            print(f"  {brief[:700]}", flush=True)
+        elif len(self.violations) == 26:
+            print("  (further violations are recorded under replays/ but not printed)", flush=True)
 
     # ---- finish -------------------------------------------------------------------
     def finish(self, level="exploration"):
